@@ -219,6 +219,9 @@ inductive BindSrc
   | none | query | form | multipart | json | xml
   deriving DecidableEq, Repr
 
+/-- `m[k] = 1` on a Go map used as a set (represented by the list of its keys, in insertion order) -/
+def setInsert (l : List Bytes) (k : Bytes) : List Bytes := if k ∈ l then l else l ++ [k]
+
 /-- what `Router.QuickMatch` calls, over an abstract router state `σ` (the route cache may change when a
     dynamic route is matched), abstract routes `ρ` and parameter maps `π` -/
 structure QMEnv (σ ρ π : Type) where
